@@ -1,3 +1,415 @@
+(* C15 -- proofs.  Part A: positional array writes are idempotent.  Part B: a Hoare logic for the
+   store/cache state monad of Model/C15.v.  Part C: every getter returns the specification value and keeps
+   the invariant.  Part D: histories, the factory, refutations of the two mutants. *)
 From Coq Require Import List Arith Bool Lia.
 From PAV Require Import Base.Res Base.Check Model.C15.
 Import ListNotations.
+Local Open Scope nat_scope.
+
+(* ================================================================================================ *)
+(* Part A                                                                                            *)
+Section Imap.
+  Context {A : Type}.
+  Lemma imap_ext (f g : nat -> A -> A) l i :
+    (forall k x, f k x = g k x) -> imap f i l = imap g i l.
+  Proof. intro H. revert i. induction l as [|a l IH]; intro i; simpl; [reflexivity|]. now rewrite H, IH. Qed.
+  Lemma imap_imap (f g : nat -> A -> A) l i :
+    imap f i (imap g i l) = imap (fun k x => f k (g k x)) i l.
+  Proof. revert i. induction l as [|a l IH]; intro i; simpl; [reflexivity|]. now rewrite IH. Qed.
+  Lemma imap_id l i : imap (fun _ (x : A) => x) i l = l.
+  Proof. revert i. induction l as [|a l IH]; intro i; simpl; [reflexivity|]. now rewrite IH. Qed.
+End Imap.
+
+Section Writes.
+  Variable T : Type.
+  Variable K : kernels T.
+  Notation z := (t0 K).
+
+  (* vectors: a write is an overlay nat -> option T *)
+  Definition vov := nat -> option T.
+  Definition app_vov (o : vov) (v : vec T) : vec T :=
+    imap (fun i x => match o i with Some y => y | None => x end) 0 v.
+  Definition vov_of (w : vwrite T) : vov :=
+    fun i => if in_rng (vw_lo w) (vw_hi w) i then Some (nth (i - vw_lo w) (vw_b w) z) else None.
+  Definition vseq (o1 o2 : vov) : vov := fun i => match o2 i with Some y => Some y | None => o1 i end.
+  Fixpoint vovl (ws : list (vwrite T)) : vov :=
+    match ws with [] => fun _ => None | w :: t => vseq (vov_of w) (vovl t) end.
+
+  Lemma apply_vw_ov v w : apply_vw K v w = app_vov (vov_of w) v.
+  Proof.
+    unfold apply_vw, app_vov, vov_of. apply imap_ext. intros k x.
+    destruct (in_rng (vw_lo w) (vw_hi w) k); reflexivity.
+  Qed.
+  Lemma app_vov_seq o1 o2 v : app_vov o2 (app_vov o1 v) = app_vov (vseq o1 o2) v.
+  Proof.
+    unfold app_vov. rewrite imap_imap. apply imap_ext. intros k x. unfold vseq.
+    destruct (o2 k); [reflexivity|]. destruct (o1 k); reflexivity.
+  Qed.
+  Lemma apply_vws_ov ws : forall v, apply_vws K v ws = app_vov (vovl ws) v.
+  Proof.
+    induction ws as [|w ws IH]; intro v; simpl.
+    - unfold app_vov. now rewrite imap_id.
+    - unfold apply_vws in *. simpl. rewrite IH, apply_vw_ov, app_vov_seq. reflexivity.
+  Qed.
+  Lemma apply_vws_idem v ws : apply_vws K (apply_vws K v ws) ws = apply_vws K v ws.
+  Proof.
+    rewrite !apply_vws_ov, app_vov_seq. unfold app_vov. apply imap_ext. intros k x. unfold vseq.
+    destruct (vovl ws k); reflexivity.
+  Qed.
+  Lemma apply_vws_app v a b : apply_vws K v (a ++ b) = apply_vws K (apply_vws K v a) b.
+  Proof. unfold apply_vws. now rewrite fold_left_app. Qed.
+
+  (* matrices *)
+  Definition mov := nat -> nat -> option T.
+  Definition app_mov (o : mov) (m : mat T) : mat T :=
+    imap (fun i row => imap (fun j x => match o i j with Some y => y | None => x end) 0 row) 0 m.
+  Definition mov_of (w : mwrite T) : mov :=
+    fun i j => if in_rng (mw_r0 w) (mw_r1 w) i && in_rng (mw_c0 w) (mw_c1 w) j
+               then Some (nth (j - mw_c0 w) (nth (i - mw_r0 w) (mw_b w) []) z) else None.
+  Definition mseq (o1 o2 : mov) : mov := fun i j => match o2 i j with Some y => Some y | None => o1 i j end.
+  Fixpoint movl (ws : list (mwrite T)) : mov :=
+    match ws with [] => fun _ _ => None | w :: t => mseq (mov_of w) (movl t) end.
+
+  Lemma apply_mw_ov m w : apply_mw K m w = app_mov (mov_of w) m.
+  Proof.
+    unfold apply_mw, app_mov, mov_of. apply imap_ext. intros i row.
+    destruct (in_rng (mw_r0 w) (mw_r1 w) i); simpl.
+    - apply imap_ext. intros j x. destruct (in_rng (mw_c0 w) (mw_c1 w) j); reflexivity.
+    - now rewrite imap_id.
+  Qed.
+  Lemma app_mov_seq o1 o2 m : app_mov o2 (app_mov o1 m) = app_mov (mseq o1 o2) m.
+  Proof.
+    unfold app_mov. rewrite imap_imap. apply imap_ext. intros i row. rewrite imap_imap.
+    apply imap_ext. intros j x. unfold mseq. destruct (o2 i j); [reflexivity|]. destruct (o1 i j); reflexivity.
+  Qed.
+  Lemma apply_mws_ov ws : forall m, apply_mws K m ws = app_mov (movl ws) m.
+  Proof.
+    induction ws as [|w ws IH]; intro m; simpl.
+    - unfold app_mov. rewrite <- (imap_id m 0) at 1. apply imap_ext. intros i row. now rewrite imap_id.
+    - unfold apply_mws in *. simpl. rewrite IH, apply_mw_ov, app_mov_seq. reflexivity.
+  Qed.
+  Lemma apply_mws_idem m ws : apply_mws K (apply_mws K m ws) ws = apply_mws K m ws.
+  Proof.
+    rewrite !apply_mws_ov, app_mov_seq. unfold app_mov. apply imap_ext. intros i row.
+    apply imap_ext. intros j x. unfold mseq. destruct (movl ws i j); reflexivity.
+  Qed.
+  Lemma apply_mws_app m a b : apply_mws K m (a ++ b) = apply_mws K (apply_mws K m a) b.
+  Proof. unfold apply_mws. now rewrite fold_left_app. Qed.
+  (* re-running a prefix of a block-assignment program is absorbed by the whole program *)
+  Lemma apply_mws_absorb m a b : apply_mws K (apply_mws K m a) (a ++ b) = apply_mws K m (a ++ b).
+  Proof. now rewrite !apply_mws_app, apply_mws_idem. Qed.
+End Writes.
+
+(* ================================================================================================ *)
+(* Part B: invariant and Hoare triples                                                               *)
+Section Logic.
+  Variable T : Type.
+  Variable K : kernels T.
+  Variable inp : input T.
+  Variable mode : option (wtilde T).
+  Notation P := (pure K inp mode).
+  Notation M := (M T).
+
+  (* the two kernel identities (C04) on which the two presence-switched dictionaries rely *)
+  Definition law_dlf : Prop := forall (x : lobj T) (l : mat T),
+    k_off_dlfm K (k_dlfm K (k_cw K l (n inp))) (lo_mm x) (lo_p x) = k_off_mf K (lo_mm x) (lo_p x) (k_cw K l (n inp)).
+  Definition law_momm : Prop := forall (x : lobj T) (cw : mat T),
+    k_dotT K (conv_mm K (lo_mm x)) cw = k_off_mf K (lo_mm x) (lo_p x) cw.
+
+  (* the block assignments the w-tilde class performs on top of _data_vector_mapper / _curvature_matrix_mapper_diag *)
+  Definition dvW : list (vwrite T) :=
+    if has_func inp then dv_func_writes K inp (lf_fresh K inp) else [].
+  Definition cmdW (w : wtilde T) : list (mwrite T) :=
+    if has_func inp then multi_writes K inp (wt_w w) ++ flm_writes K inp (OffFresh T) (lf_fresh K inp)
+    else if Nat.eqb (length (mappers inp)) 1 then [] else multi_writes K inp (wt_w w).
+
+  (* what a Preloads object must satisfy (semantic form; [fresh_store] below is the user-facing form) *)
+  Definition consistent (p : pstore T) : Prop :=
+    (forall m, s_omm p = Some m -> m = p_omm K inp) /\
+    (forall m, s_curv p = Some m -> m = p_curv K inp mode) /\
+    (forall m, s_reg p = Some m -> m = p_reg K inp) /\
+    (forall x, s_ldr p = Some x -> has_reg inp = true -> p_ldr K inp = Ok x) /\
+    (forall l, s_lf p = Some l -> l = lf_fresh K inp) /\
+    (forall l, s_dlf p = Some l -> l = dlf_of K inp (lf_fresh K inp) /\ law_dlf) /\
+    (forall l, s_momm p = Some l -> l = momm_fresh K inp /\ law_momm) /\
+    (forall v, s_dvm p = Some v ->
+       (mode = None -> has_func inp = false -> v = p_dv K inp mode) /\
+       (forall w, mode = Some w -> apply_vws K v dvW = p_dv K inp mode)) /\
+    (forall m w, s_cmd p = Some m -> mode = Some w -> apply_mws K m (cmdW w) = p_pre K inp w).
+
+  (* how the Preloads object may change: only the two arrays completed in place, and only towards completion *)
+  Definition evolves (p p' : pstore T) : Prop :=
+    s_use_wt p' = s_use_wt p /\ s_wt p' = s_wt p /\ s_omm p' = s_omm p /\ s_curv p' = s_curv p /\
+    s_reg p' = s_reg p /\ s_lf p' = s_lf p /\ s_dlf p' = s_dlf p /\ s_momm p' = s_momm p /\ s_ldr p' = s_ldr p /\
+    is_some (s_dvm p') = is_some (s_dvm p) /\ is_some (s_cmd p') = is_some (s_cmd p) /\
+    (s_dvm p = Some (p_dv K inp mode) -> s_dvm p' = Some (p_dv K inp mode)).
+  Lemma evolves_refl p : evolves p p.
+  Proof. unfold evolves. tauto. Qed.
+  Lemma evolves_trans p1 p2 p3 : evolves p1 p2 -> evolves p2 p3 -> evolves p1 p3.
+  Proof.
+    unfold evolves. intros (a1&a2&a3&a4&a5&a6&a7&a8&a9&a10&a11&a12) (b1&b2&b3&b4&b5&b6&b7&b8&b9&b10&b11&b12).
+    repeat split; try congruence. auto.
+  Qed.
+
+  Definition sound (q : qty) (c : cval T) (p : pstore T) : Prop :=
+    match c with
+    | CM (MOwn m) => P q = PM m
+    | CM (MAlias SOmm) => q = QOmm /\ is_some (s_omm p) = true
+    | CM (MAlias SReg) => (q = QReg \/ (q = QRegRed /\ all_reg inp = true)) /\ is_some (s_reg p) = true
+    | CM (MAlias _) => False
+    | CV (VOwn v) => P q = PV v
+    | CV VAlias => q = QDv /\ s_dvm p = Some (p_dv K inp mode)
+    | CL l => P q = PL l
+    | CRV x => P q = PRV x
+    | CRT x => P q = PRT x
+    end.
+  Lemma sound_read q c p : consistent p -> sound q c p -> readc c p = P q.
+  Proof.
+    intros (Ho & _ & Hr & _) Hs. destruct c as [[m|[]]|[v|]|l|x|x]; simpl in *; try congruence; try contradiction.
+    - destruct Hs as [-> Hs]. destruct (s_omm p) eqn:E; [|discriminate]. now rewrite (Ho _ eq_refl).
+    - destruct Hs as [Hq Hs]. destruct (s_reg p) eqn:E; [|discriminate]. rewrite (Hr _ eq_refl).
+      destruct Hq as [->|[-> Ha]]; simpl; [reflexivity|]. unfold p_regred. now rewrite Ha.
+    - destruct Hs as [-> Hs]. now rewrite Hs.
+  Qed.
+  Lemma sound_mono q c p p' : evolves p p' -> sound q c p -> sound q c p'.
+  Proof.
+    intros (a1&a2&a3&a4&a5&a6&a7&a8&a9&a10&a11&a12) Hs.
+    destruct c as [[m|[]]|[v|]|l|x|x]; simpl in *; try assumption.
+    - now rewrite a3.
+    - now rewrite a5.
+    - destruct Hs; split; auto.
+  Qed.
+
+  Definition Inv (st : state T) : Prop :=
+    consistent (store st) /\ forall q c, cache st q = Some c -> sound q c (store st).
+
+  Definition triple {A} (Pre : pstore T -> Prop) (m : M A) (Q : A -> pstore T -> Prop) : Prop :=
+    forall st, Inv st -> Pre (store st) ->
+      Inv (snd (m st)) /\ evolves (store st) (store (snd (m st))) /\ Q (fst (m st)) (store (snd (m st))).
+  Definition TT : pstore T -> Prop := fun _ => True.
+
+  Lemma triple_ret A (a : A) (Pre : pstore T -> Prop) : triple Pre (ret a) (fun x p => x = a /\ Pre p).
+  Proof. intros st HI HP. simpl. auto using evolves_refl. Qed.
+  Lemma triple_bind A B Pre (m : M A) Q (f : A -> M B) R :
+    triple Pre m Q -> (forall a, triple (Q a) (f a) R) -> triple Pre (bind m f) R.
+  Proof.
+    intros Hm Hf st HI HP. unfold bind. specialize (Hm st HI HP). destruct (m st) as [a st1]. simpl in Hm.
+    destruct Hm as (HI1 & Hev & HQ). specialize (Hf a st1 HI1 HQ). destruct (f a st1) as [b st2]. simpl in *.
+    destruct Hf as (HI2 & Hev2 & HR). eauto using evolves_trans.
+  Qed.
+  Lemma triple_conseq A (Pre Pre' : pstore T -> Prop) (m : M A) (Q Q' : A -> pstore T -> Prop) :
+    triple Pre' m Q' -> (forall p, consistent p -> Pre p -> Pre' p) -> (forall a p, consistent p -> Q' a p -> Q a p) ->
+    triple Pre m Q.
+  Proof.
+    intros H H1 H2 st HI HP. destruct (H st HI (H1 _ (proj1 HI) HP)) as (a & b & c). split; [assumption|]. split; [assumption|].
+    apply H2; [apply a | assumption].
+  Qed.
+  (* a state-independent fact is carried across a computation *)
+  Lemma triple_frame A (F : Prop) (Pre : pstore T -> Prop) (m : M A) (Q : A -> pstore T -> Prop) :
+    (F -> triple Pre m Q) -> triple (fun p => F /\ Pre p) m (fun a p => F /\ Q a p).
+  Proof. intros H st HI [HF HP]. destruct (H HF st HI HP) as (a & b & c). auto. Qed.
+  Lemma triple_gets A (f : pstore T -> A) Pre : triple Pre (gets f) (fun a p => a = f p /\ Pre p).
+  Proof. intros st HI HP. simpl. auto using evolves_refl. Qed.
+
+  Lemma cached_triple q (compute : M (cval T)) :
+    triple TT compute (sound q) -> triple TT (cached q compute) (sound q).
+  Proof.
+    intros H st HI _. unfold cached. destruct (cache st q) as [c|] eqn:E.
+    - simpl. split; [assumption|]. split; [apply evolves_refl|]. apply (proj2 HI _ _ E).
+    - specialize (H st HI I). destruct (compute st) as [c st1]. simpl in *. destruct H as ((Hc & Hs) & Hev & Hq).
+      split; [|split; assumption]. split; [assumption|]. intros q' c'. simpl.
+      destruct (qty_eqb q' q) eqn:Eq.
+      + intro Hx. injection Hx as <-. destruct q', q; try discriminate; assumption.
+      + apply Hs.
+  Qed.
+  Lemma val_triple q (g : M (cval T)) :
+    triple TT g (sound q) -> triple TT (val g) (fun v _ => v = P q).
+  Proof.
+    intros H st HI _. unfold val, bind, gets. specialize (H st HI I). destruct (g st) as [c st1]. simpl in *.
+    destruct H as (HI1 & Hev & Hs). split; [assumption|]. split; [assumption|].
+    apply sound_read; [apply HI1 | assumption].
+  Qed.
+  (* plain value post-conditions compose without bookkeeping *)
+  Definition vtriple {A} (m : M A) (Q : A -> Prop) : Prop := triple TT m (fun a _ => Q a).
+  Lemma vbind A B (m : M A) (Q : A -> Prop) (f : A -> M B) (R : B -> pstore T -> Prop) :
+    vtriple m Q -> (forall a, Q a -> triple TT (f a) R) -> triple TT (bind m f) R.
+  Proof.
+    intros Hm Hf. eapply triple_bind; [apply Hm|]. intros a st HI HQ. apply (Hf a HQ st HI I).
+  Qed.
+  Lemma vret (c : cval T) q : (forall p, consistent p -> sound q c p) -> triple TT (ret c) (sound q).
+  Proof. intros H st HI _. simpl. split; [assumption|]. split; [apply evolves_refl|]. apply H, HI. Qed.
+
+  (* ---------------------------------------------------------------------------------------------- *)
+  (* more rules                                                                                      *)
+  Definition store_pres {A} (m : M A) : Prop := forall st, store (snd (m st)) = store st.
+  Lemma triple_frame_pres A (F : pstore T -> Prop) (m : M A) Q :
+    store_pres m -> triple TT m Q -> triple F m (fun a p => F p /\ Q a p).
+  Proof.
+    intros Hp H st HI HF. destruct (H st HI I) as (a & b & c). split; [assumption|]. split; [assumption|].
+    split; [|assumption]. now rewrite Hp.
+  Qed.
+  Lemma triple_frame_st A (F : pstore T -> Prop) (m : M A) Q :
+    (forall p p', evolves p p' -> F p -> F p') -> triple TT m Q -> triple F m (fun a p => F p /\ Q a p).
+  Proof.
+    intros Hst H st HI HF. destruct (H st HI I) as (a & b & c). split; [assumption|]. split; [assumption|].
+    split; [|assumption]. eapply Hst; eassumption.
+  Qed.
+  Lemma triple_weaken_pre A (Pre : pstore T -> Prop) (m : M A) Q : triple TT m Q -> triple Pre m Q.
+  Proof. intros H st HI _. apply (H st HI I). Qed.
+  Lemma triple_gets_case A B (f : pstore T -> A) (k : A -> M B) Q :
+    (forall a, triple (fun p => f p = a) (k a) Q) -> triple TT (bind (gets f) k) Q.
+  Proof. intros H st HI _. unfold bind, gets. apply (H (f (store st)) st HI eq_refl). Qed.
+  Lemma triple_post A (Pre : pstore T -> Prop) (m : M A) (Q Q' : A -> pstore T -> Prop) :
+    triple Pre m Q' -> (forall a p, consistent p -> Q' a p -> Q a p) -> triple Pre m Q.
+  Proof. intros H H2. eapply triple_conseq; [apply H| auto | assumption]. Qed.
+
+  Lemma firstn_len {A} (l : list A) : firstn (length l) l = l.
+  Proof. apply firstn_all. Qed.
+
+  (* ---------------------------------------------------------------------------------------------- *)
+  (* Part C: the getters (the code: copy kept, guard present)                                          *)
+  Lemma lf_ok : triple TT (get_lf K inp) (sound QLf).
+  Proof.
+    apply cached_triple. apply triple_gets_case. intros [l|] st HI E; simpl.
+    - split; [assumption|]. split; [apply evolves_refl|].
+      destruct HI as ((_&_&_&_&Hl&_) & _). rewrite (Hl _ E). unfold rekey.
+      replace (length (funcs inp)) with (length (lf_fresh K inp)) by (unfold lf_fresh; now rewrite map_length).
+      now rewrite firstn_len.
+    - split; [assumption|]. split; [apply evolves_refl|]. reflexivity.
+  Qed.
+  Lemma momm_ok : triple TT (get_momm K inp) (sound QMomm).
+  Proof.
+    apply cached_triple. apply triple_gets_case. intros [l|] st HI E; simpl.
+    - split; [assumption|]. split; [apply evolves_refl|].
+      destruct HI as ((_&_&_&_&_&_&Hl&_) & _). rewrite (proj1 (Hl _ E)). unfold rekey.
+      replace (length (mappers inp)) with (length (momm_fresh K inp)) by (unfold momm_fresh; now rewrite map_length).
+      now rewrite firstn_len.
+    - split; [assumption|]. split; [apply evolves_refl|]. reflexivity.
+  Qed.
+  Lemma lf_val : vtriple (val (get_lf K inp)) (fun v => v = PL (lf_fresh K inp)).
+  Proof. exact (val_triple QLf _ lf_ok). Qed.
+  Lemma omm_list_ok : vtriple (omm_list K inp) (fun l => l = omm_list_of K inp (lf_fresh K inp)).
+  Proof.
+    unfold omm_list. eapply vbind; [apply lf_val|]. intros a ->. intros st HI _. simpl. auto using evolves_refl.
+  Qed.
+  Lemma omm_ok : triple TT (get_omm K inp) (sound QOmm).
+  Proof.
+    apply cached_triple. apply triple_gets_case. intros [m|].
+    - intros st HI E. simpl. split; [assumption|]. split; [apply evolves_refl|]. split; [reflexivity|]. now rewrite E.
+    - apply triple_weaken_pre. eapply vbind; [apply omm_list_ok|]. intros l ->. intros st HI _. simpl.
+      split; [assumption|]. split; [apply evolves_refl|]. reflexivity.
+  Qed.
+  Lemma wtd_ok : triple TT (get_wtd K inp) (sound QWtd).
+  Proof. apply cached_triple. intros st HI _. simpl. split; [assumption|]. split; [apply evolves_refl|]. reflexivity. Qed.
+  Lemma reg_ok : triple TT (get_reg K inp) (sound QReg).
+  Proof.
+    apply cached_triple. apply triple_gets_case. intros [m|] st HI E; simpl.
+    - split; [assumption|]. split; [apply evolves_refl|]. split; [now left|]. now rewrite E.
+    - split; [assumption|]. split; [apply evolves_refl|]. reflexivity.
+  Qed.
+
+  Lemma omm_val : vtriple (val (get_omm K inp)) (fun v => v = PM (p_omm K inp)).
+  Proof. exact (val_triple QOmm _ omm_ok). Qed.
+  Lemma wtd_val : vtriple (val (get_wtd K inp)) (fun v => v = PV (p_wtd K inp)).
+  Proof. exact (val_triple QWtd _ wtd_ok). Qed.
+  Lemma reg_val : vtriple (val (get_reg K inp)) (fun v => v = PM (p_reg K inp)).
+  Proof. exact (val_triple QReg _ reg_ok). Qed.
+
+  Lemma regred_ok : triple TT (get_regred K inp) (sound QRegRed).
+  Proof.
+    apply cached_triple. eapply triple_bind; [apply reg_ok|]. intros c.
+    destruct (all_reg inp) eqn:Ea.
+    - intros st HI Hs. simpl. split; [assumption|]. split; [apply evolves_refl|].
+      destruct c as [[m|[]]|[v|]|l|x|x]; simpl in *; try discriminate; try contradiction.
+      + unfold p_regred. now rewrite Ea.
+      + destruct Hs; discriminate.
+      + destruct Hs as [_ Hs]. split; [right; now split | assumption].
+      + destruct Hs; discriminate.
+    - intros st HI Hs. simpl. split; [assumption|]. split; [apply evolves_refl|].
+      rewrite (sound_read _ _ _ (proj1 HI) Hs). simpl. unfold p_regred. now rewrite Ea.
+  Qed.
+  Lemma regred_val : vtriple (val (get_regred K inp)) (fun v => v = PM (p_regred K inp)).
+  Proof. exact (val_triple QRegRed _ regred_ok). Qed.
+
+  Lemma vret_val A (a : A) (Q : A -> Prop) : Q a -> vtriple (ret a) Q.
+  Proof. intros H st HI _. simpl. auto using evolves_refl. Qed.
+
+  (* ---- data_vector ---- *)
+  Lemma Inv_dvm_set st v :
+    Inv st -> is_some (s_dvm (store st)) = true -> v = p_dv K inp mode ->
+    (forall w, mode = Some w -> apply_vws K v dvW = p_dv K inp mode) ->
+    Inv {| cache := cache st; store := dvm_set v (store st) |} /\ evolves (store st) (dvm_set v (store st)).
+  Proof.
+    intros [Hc Hs] Hp Hv Hw.
+    assert (Hev : evolves (store st) (dvm_set v (store st))).
+    { unfold evolves. simpl. repeat split; auto. intros _. now rewrite Hv. }
+    split; [|assumption]. split.
+    - destruct Hc as (c1&c2&c3&c4&c5&c6&c7&c8&c9).
+      refine (conj c1 (conj c2 (conj c3 (conj c4 (conj c5 (conj c6 (conj c7 (conj _ c9)))))))).
+      simpl. intros v' Hv'. injection Hv' as <-. split; [intros _ _; assumption | assumption].
+    - intros q c Hq. simpl in *. eapply sound_mono; [apply Hev | apply Hs, Hq].
+  Qed.
+
+  Lemma dvm_ref_wt_ok w : mode = Some w ->
+    triple TT (dvm_ref_wt K inp)
+           (fun r p => r = VOwn (p_dvm K inp mode) \/ (r = VAlias /\ is_some (s_dvm p) = true)).
+  Proof.
+    intro Em. apply triple_gets_case. intros [v|].
+    - intros st HI E. simpl. split; [assumption|]. split; [apply evolves_refl|]. right. now rewrite E.
+    - apply triple_weaken_pre. eapply vbind; [apply wtd_val|]. intros a ->. intros st HI _. simpl.
+      split; [assumption|]. split; [apply evolves_refl|]. left. unfold p_dvm. now rewrite Em.
+  Qed.
+
+  Lemma dv_ok_aux mode' : mode' = mode -> triple TT (get_dv K code inp mode') (sound QDv).
+  Proof.
+    intro Em. apply cached_triple. unfold get_dv. destruct mode' as [w|]; symmetry in Em.
+    - (* w-tilde class *)
+      destruct (has_func inp) eqn:Ef.
+      + eapply triple_bind; [apply (dvm_ref_wt_ok w Em)|]. intros r.
+        eapply triple_bind.
+        { apply triple_frame_st; [|apply lf_val].
+          intros p p' (_&_&_&_&_&_&_&_&_&Hd&_) [H|[H H2]]; [now left|right; split; [assumption|congruence]]. }
+        intros lf st HI [Hr ->]. simpl.
+        assert (Hpdv : p_dv K inp mode = apply_vws K (p_dvm K inp mode) (dv_func_writes K inp (lf_fresh K inp))).
+        { unfold p_dv. now rewrite Em, Ef. }
+        assert (HdvW : dvW = dv_func_writes K inp (lf_fresh K inp)) by (unfold dvW; now rewrite Ef).
+        destruct Hr as [->|[-> Hp]]; simpl.
+        * split; [assumption|]. split; [apply evolves_refl|]. now rewrite Hpdv.
+        * destruct (s_dvm (store st)) as [cur|] eqn:Ec; [|discriminate].
+          pose proof (proj1 HI) as (_&_&_&_&_&_&_&Hcd&_). specialize (proj2 (Hcd _ Ec) w Em) as Hcd'. clear Hcd.
+          rename Hcd' into Hcd. rewrite <- HdvW. rewrite Hcd.
+          assert (Hside1 : is_some (s_dvm (store st)) = true) by now rewrite Ec.
+          assert (Hside2 : forall w', mode = Some w' -> apply_vws K (p_dv K inp mode) dvW = p_dv K inp mode).
+          { intros w' _. rewrite <- Hcd at 1. rewrite apply_vws_idem. assumption. }
+          destruct (Inv_dvm_set st (p_dv K inp mode) HI Hside1 eq_refl Hside2) as [HI' Hev].
+          split; [exact HI'|]. split; [exact Hev|]. split; reflexivity.
+      + apply triple_gets_case. intros [v|].
+        * intros st HI E. simpl. split; [assumption|]. split; [apply evolves_refl|]. split; [reflexivity|].
+          pose proof (proj1 HI) as (_&_&_&_&_&_&_&Hcd&_). specialize (proj2 (Hcd _ E) w Em) as Hcd'.
+          unfold dvW in Hcd'. rewrite Ef in Hcd'. simpl in Hcd'. now rewrite E, Hcd'.
+        * apply triple_weaken_pre. eapply vbind; [apply wtd_val|]. intros a ->.
+          assert (Hpdv : p_dv K inp mode =
+                         if Nat.eqb (length (mappers inp)) 1
+                         then match objs inp with o :: _ => k_dv_wt K (p_wtd K inp) (lo_mm o) (lo_p o) | [] => [] end
+                         else concat (map (fun o => k_dv_wt K (p_wtd K inp) (lo_mm o) (lo_p o)) (objs inp))).
+          { unfold p_dv. now rewrite Em, Ef. }
+          destruct (Nat.eqb (length (mappers inp)) 1); intros st HI _; simpl;
+            (split; [assumption|]); (split; [apply evolves_refl|]); now rewrite Hpdv.
+    - (* mapping class *)
+      apply triple_gets_case. intros s. simpl.
+      destruct (is_some s && negb (has_func inp)) eqn:Eg.
+      + intros st HI E. simpl. split; [assumption|]. split; [apply evolves_refl|]. split; [reflexivity|].
+        apply andb_prop in Eg. destruct Eg as [E1 E2]. destruct s as [v|]; [|discriminate].
+        pose proof (proj1 HI) as (_&_&_&_&_&_&_&Hcd&_). specialize (proj1 (Hcd _ E) Em) as Hcd'.
+        rewrite E, Hcd'; [reflexivity|]. now destruct (has_func inp).
+      + apply triple_weaken_pre. apply triple_gets_case. intros [b|].
+        * intros st HI E. simpl. split; [assumption|]. split; [apply evolves_refl|].
+          pose proof (proj1 HI) as (Ho&_). rewrite (Ho _ E). unfold p_dv. now rewrite Em.
+        * apply triple_weaken_pre. eapply vbind with (Q := fun B => B = p_omm K inp).
+          { eapply vbind; [apply omm_val|]. intros a ->. now apply vret_val. }
+          intros B ->. intros st HI _. simpl. split; [assumption|]. split; [apply evolves_refl|].
+          unfold p_dv. now rewrite Em.
+  Qed.
+  Lemma dv_ok : triple TT (get_dv K code inp mode) (sound QDv).
+  Proof. now apply dv_ok_aux. Qed.
+End Logic.
